@@ -30,7 +30,7 @@ def run_suite(tier, seed, force=False):
     build_harness()
     os.makedirs(cdir, exist_ok=True)
     quick = tier == 'quick'
-    scs = sdgen.healthy(seed, quick) + sdgen.misbehaving(seed, quick) + sdtours.scenarios(tier, seed)
+    scs = sdgen.healthy(seed, quick) + sdgen.misbehaving(seed, quick) + sdgen.weird_csd(seed, quick) + sdtours.scenarios(tier, seed)
     shards = [[] for _ in range(SHARDS)]
     for k, s in enumerate(scs):
         shards[k % SHARDS].append(s)
